@@ -84,7 +84,9 @@ def cli_pairs(ctx, n):
             v = "".join(c.upper() if rnd.random() < 0.5 else c for c in q)
             if "k" in v and rnd.random() < 0.5:
                 v = v.replace("k", "\u212a", 1)
-            v = rnd.choice(["", " ", "  ", "\t"]) + v.replace(" ", rnd.choice([" ", "  ", " \t "])) + rnd.choice(["", " ", "\n"])
+            # padding: ASCII and Unicode white space (everything unicode.IsSpace accepts), leading, trailing and repeated
+            v = rnd.choice(["", " ", "  ", "\t", "\u00a0", " \u3000"]) + \
+                v.replace(" ", rnd.choice([" ", "  ", " \t ", " \u00a0", "\u2003 ", " \u3000 ", "\u00a0 \u2009"])) + rnd.choice(["", " ", "\n", "\u00a0", " \u2028"])
             a, b = run(q), run(v)
             ctx.cov["evaluations"] += 1
             if a:
